@@ -72,7 +72,7 @@ add('C16', ['C16', 'C16S'], 'model_checking',
     "Stage 1: explicit-state search of sequence puts (several delta shapes, several per request, boundary deltas) mixed with plain puts/deletes against an arbitrary-precision model, on two replicas. Stage 2: schedule exploration of a GetSequenceUpdates subscriber racing with sequence writers on a real RF=1 leader: at quiescence the subscriber holds the highest generated key.",
     "DESIGN.md §3 C16", SCHED_NOTE, T_SEQX + " + " + T_SCHED, 'seqx+sched')
 add('C17', ['C17', 'C17S'], 'model_checking',
-    "Stage 1: explicit-state search of write histories with subscriber reads from every offset, replica reconnects and trimming rounds on a real kv.DB against a model diff. Stage 2: schedule exploration of a GetNotifications subscriber (with disconnect/resume) racing with writers on a real RF=1 leader: exactly one batch per committed request, in order, none lost at quiescence.",
+    "Stage 1: explicit-state search of write histories with subscriber reads from every offset, replica reconnects and trimming rounds on a real kv.DB against a model diff. Stage 2: schedule exploration of a GetNotifications subscriber (with disconnect/resume) racing with writers on a real RF=1 leader: exactly one batch per committed request, in order, none lost at quiescence; and the client library's notification manager (per-shard manager, retry with backoff on virtual time, multiplexing) over the real leader controller: connection lost before the first batch, writes committed meanwhile, reconnect: every write reaches the application once.",
     "DESIGN.md §3 C17", SCHED_NOTE, T_SEQX + " + " + T_SCHED, 'seqx+sched')
 add('C18', ['C18', 'C18S'], 'model_checking',
     "Explicit-state search over sequences of cluster-config changes through the real ApplyClusterChanges / assignment computation / client ShardManager.update code: every published namespace must partition [0, 2^32-1] exactly, shard ids unique and never reused, client routing agrees with the published owner at every range boundary; GenerateShards alone for every shard count up to the bound. Schedule stage (h/c18s): one or two clients subscribing to a node's shard assignments (real RegisterForUpdates, the client's Send a scheduling point) racing with one or two pushes of a new map, every schedule up to the deviation bound: a client that stays connected holds the node's current map once nothing is in flight, or it has been cut off.",
